@@ -39,7 +39,8 @@ def run_property(prop: str, root: str, tier: str, only=None, write_evidence=True
         n = len(ctx.instances) - n0
         ctx.rules_run.append({"rule": rid, "doc": (fn.__doc__ or "").strip().split("\n\n")[0].replace("\n", " "),
                               "instances": n, "floor": floor})
-        if not only and n < floor and not any(x.startswith(f"rule={rid} ") for x in errors):
+        found = any(f.rule == rid for f in ctx.findings)
+        if not only and n < floor and not found and not any(x.startswith(f"rule={rid} ") for x in errors):
             errors.append(f"rule={rid} vacuity: {n} instances derived, at least {floor} confirmed by hand")
     if only:
         ctx.instances = [i for i in ctx.instances if i.construct == only.get("construct")] or ctx.instances
